@@ -10,6 +10,9 @@ import PcVerif.Lemmas.StrLemmas
 import PcVerif.Lemmas.SamiLemmas
 import PcVerif.Lemmas.SrtDocLemmas
 import PcVerif.Lemmas.VttDocLemmas
+import PcVerif.Lemmas.MicroDvdDocLemmas
+import Mathlib.Tactic.Ring
+import Mathlib.Tactic.NormNum
 namespace PcVerif.Props.C01
 open PcVerif PcVerif.Str
 
@@ -297,5 +300,41 @@ example :
     Vtt.read {} "WEBVTT\n\nintro\n0:00:01.000 --> 0:00:02.500\nhello\nworld\n\n\n100:00:03.000 --> 100:00:04.000\n&lt;x\n".toList
       = .ok [⟨1000000, 2500000, [.text "hello".toList, .brk, .text "world".toList], none⟩,
              ⟨360003000000, 360004000000, [.text "<x".toList], none⟩] := by decide
+
+/-! ### MicroDVD, document level -/
+
+theorem microdvd_read_constants_pinned : Generated.microdvdReadDefaultFps = 25 ∧ Generated.microdvdReadMul = 1000000 := by decide
+
+/-- **C01 (MicroDVD, whole documents).** ANY number of lines `{a}{b}text|text…` (frame numbers of any width, at least one
+    non-empty text piece, no piece containing `|`), each ended by a line feed, is read as exactly one caption per line, in
+    order, starting and ending at ⌊frame · 10⁶ / 25⌋ µs, its pieces separated by breaks -/
+theorem microdvd_doc_cues (Ls : List MicroDvd.MLine) (hne : Ls ≠ []) (hw : ∀ L ∈ Ls, L.WF)
+    (hnb : ∀ L ∈ Ls, Srt.NoBreak L.line) :
+    MicroDvd.read ((Ls.map MicroDvd.MLine.line).flatMap (· ++ ['\n'])) = .ok (Ls.map (·.caption 25)) := by
+  have := MicroDvd.read_lines Ls hne hw hnb
+  rwa [microdvd_read_constants_pinned.1] at this
+
+/-- with a declared frame rate `{0}{0}rate` (a decimal number other than zero) the instants are ⌊frame · 10⁶ / rate⌋ µs,
+    evaluated exactly -/
+theorem microdvd_doc_cues_rate (rate : Str) (f : Rat) (Ls : List MicroDvd.MLine) (hne : Ls ≠ []) (hw : ∀ L ∈ Ls, L.WF)
+    (hp : MicroDvd.parseDecimal (strip rate) = some f) (hf : f ≠ 0)
+    (hnb : ∀ l ∈ ('{' :: '0' :: '}' :: '{' :: '0' :: '}' :: rate) :: Ls.map MicroDvd.MLine.line, Srt.NoBreak l) :
+    MicroDvd.read ((('{' :: '0' :: '}' :: '{' :: '0' :: '}' :: rate) :: Ls.map MicroDvd.MLine.line).flatMap (· ++ ['\n']))
+      = .ok (Ls.map (·.caption f)) :=
+  MicroDvd.read_lines_with_rate rate f Ls hne hw hp hf hnb
+
+/-- at the default rate a frame is exactly 40 ms -/
+theorem microdvd_frame_25 (n : Nat) : MicroDvd.framesToMicro n 25 = ((n * 40000 : Nat) : Int) := by
+  unfold MicroDvd.framesToMicro
+  rw [microdvd_read_constants_pinned.2]
+  have : ((n : Rat) * ((1000000 : Nat) : Rat) / 25) = (((n * 40000 : Nat) : Int) : Rat) := by
+    push_cast
+    ring
+  rw [this]
+  exact Rat.floor_intCast _
+
+/-- the hypotheses are satisfiable -/
+example : (⟨"25".toList, "50".toList, ["hello".toList, "wor ld".toList]⟩ : MicroDvd.MLine).WF :=
+  ⟨⟨by decide, by decide⟩, ⟨by decide, by decide⟩, by decide, by decide, by decide⟩
 
 end PcVerif.Props.C01
